@@ -426,6 +426,7 @@ type memMonitor struct {
 	sc      *Scenario
 	last    []uint64 // digest per variable
 	gbase   uint64
+	abase   uint64 // digest of data held in package-level atomic values
 	evals   uint64
 	exclude int // variable that may change in the current step (-1 none); hist worlds
 	epoch   uint64
@@ -443,6 +444,7 @@ func (m *memMonitor) snapshot() {
 		m.last[i] = decimal.VerifDigest(0, v)
 	}
 	m.gbase = decimal.VerifGlobalsDigest()
+	m.abase = decimal.VerifAtomicHeldDigest()
 }
 
 // check is called at every yield of task t.
@@ -469,6 +471,13 @@ func (m *memMonitor) check(t, op int, site uint32) string {
 			m.gbase = g
 		} else {
 			return fmt.Sprintf("package-level state of the library was modified, outside any lock, while task %d executed op #%d (detected before %s)", t, op, siteStr(site))
+		}
+	}
+	if a := decimal.VerifAtomicHeldDigest(); a != m.abase {
+		if verifrt.LocksHeld() > 0 || verifrt.LockEpoch != m.epoch || verifrt.JustAtomic() {
+			m.abase = a
+		} else {
+			return fmt.Sprintf("data held in a package-level sync/atomic value was changed in place by an ordinary statement while task %d executed op #%d (detected before %s): whoever loaded it before is still reading it", t, op, siteStr(site))
 		}
 	}
 	m.epoch = verifrt.LockEpoch
